@@ -35,6 +35,9 @@ def make_cases(rng, tier, budget):
             scoped = [k for k, name, _ in log if name in IN_SCOPE]
             other = [k for k, name, _ in log if name not in IN_SCOPE]
             picks = rng.sample(scoped, min(len(scoped), 4 if tier == "quick" else 8))
+            # the cache-write calls of the first and of the last build always
+            cw = [k for k, name, _ in log if name in ("gzip.open", "gzip.write")]
+            picks = sorted(set(picks) | set(cw[:2]) | set(cw[-2:]))
             for k in picks:
                 c2 = json.loads(json.dumps(c))
                 c2["faults"] = [k]
